@@ -14,7 +14,7 @@ EXTRA = {"C06_2": ["C07"], "C11_2": ["C12"], "C12_3": ["C04"], "C06_6": ["C18"],
          "C11_10": ["C12"], "C13_9": ["C14"], "C09_8": ["C01"], "C05_9": ["C11"], "C06_10": ["C08"], "C06_11": ["C08"], "C06_13": ["C08"], "C05_11": ["C18"], "C05_13": ["C12"],
          "C11_11": ["C04"], "C11_12": ["C05"], "C14_11": ["C08"], "C14_13": ["C08"], "C17_12": ["C13"], "C16_13": ["C04"], "C05_12": ["C16"],
          "C04_14": ["C01"], "C04_15": ["C19"], "C05_15": ["C16"], "C05_16": ["C16"], "C06_15": ["C03"], "C06_16": ["C08"], "C08_16": ["C14"], "C13_16": ["C17"], "C13_15": ["C14"], "C14_15": ["C13"],
-         "C04_17": ["C02"], "C05_17": ["C16"], "C06_19": ["C03"], "C11_17": ["C16"], "C11_19": ["C06"], "C12_17": ["C04"], "C16_17": ["C04"], "C05_21": ["C16"]}      # neighbouring checks that also see the change
+         "C04_17": ["C02"], "C05_17": ["C16"], "C06_19": ["C03"], "C11_17": ["C16"], "C11_19": ["C06"], "C12_17": ["C04"], "C16_17": ["C04"], "C05_21": ["C16"], "C04_20": ["C05"], "C04_21": ["C01"], "C12_20": ["C18"]}      # neighbouring checks that also see the change
 resf = "/verif/seeded/RESULTS.json"
 results = json.load(open(resf)) if os.path.exists(resf) else {}
 lock = threading.Lock()
